@@ -465,6 +465,15 @@ func (k *scoreKit) compareScore(rule string, fn *types.Func, ref []refLeaf) (hit
 			})
 		}
 	}
+	var recvNil, recvInvalid *ir.Term
+	if recv := fn.Type().(*types.Signature).Recv(); recv != nil {
+		for _, l := range k.levels {
+			if types.Identical(recv.Type(), l.Ptr()) && l.Method("GetError") != nil {
+				recvNil = ir.Bin("==", ir.Param(0), nilOf(l.Ptr()))
+				recvInvalid = ir.Bin("!=", ir.Call(l.Method("GetError"), ir.Param(0)), nilOf(errorType))
+			}
+		}
+	}
 	type pl struct {
 		guards []*ir.Term
 		ret    *ir.Term
@@ -478,7 +487,18 @@ func (k *scoreKit) compareScore(rule string, fn *types.Func, ref []refLeaf) (hit
 		}
 		var gs []*ir.Term
 		for _, g := range lf.Guards {
-			gs = append(gs, strip2(g))
+			g = strip2(g)
+			// a test of the receiver for nil: GetError() of a nil receiver is an error (rule valid-chain: it returns
+			// nil only under receiver != nil), so "receiver == nil" is a case of "invalid object" and
+			// "receiver != nil" adds nothing to a path that is classified by GetError() anyway
+			if recvNil != nil {
+				if g.Key() == recvNil.Key() {
+					g = recvInvalid
+				} else if g.Key() == ir.NotCond(recvNil).Key() {
+					continue
+				}
+			}
+			gs = append(gs, g)
 		}
 		gs = k.closeGuards(gs)
 		// drop leaves whose closed guard set is contradictory
